@@ -4,6 +4,7 @@
 -/
 import IcingaProofs.C17.Lemmas
 import IcingaProofs.C17.ObjLemmas
+import IcingaProofs.C17.RoundTrip
 import IcingaModel.C17.Spec
 
 namespace Icinga.C17
@@ -54,10 +55,82 @@ theorem number_precision_counterexample :
 
 /-! ## Structure of the generated text -/
 
+/-- What the round trip asks of the inputs: the type name is not one of the two lexer keywords the
+    writer does not know (no type is), and name, template names, keys and string values are free of
+    U+0000 (F-C17b); nested keys are not `in`/`debugger` (`lexer_keyword_key_rejected`).  Nothing else:
+    quotes, backslashes, line breaks, comment markers, `}}}`, `$`, dots, keywords, any bytes, any
+    nesting, any numbers. -/
+structure InputOk (ty name : Str) (imports : List Str) (attrs : List (Str × Value)) : Prop where
+  ty : ty ≠ kwDebugger ∧ ty ≠ kwIn
+  name : chNUL ∉ name
+  imports : ∀ t ∈ imports, chNUL ∉ t
+  attrs : ∀ kv ∈ attrs, chNUL ∉ kv.1 ∧ (splitDots kv.1).1 ≠ kwDebugger ∧ (splitDots kv.1).1 ≠ kwIn ∧ VSafe kv.2
+
+/-- `emit_parse_roundtrip`: for EVERY type, name, template list and attribute dictionary (as above)
+    the text `EmitConfigItem` generates is read back by the lexer/parser as exactly ONE statement
+    `object <type> "<name>" [ignore_on_error]` whose body imports exactly the given templates and assigns
+    exactly the supplied paths (dotted keys split) the supplied values, numbers rounded to six fractional
+    digits — and nothing else (the parser rejects any text with a further statement or foreign token). -/
+theorem emit_parse_roundtrip (ty name : Str) (ioe : Bool) (imports : List Str) (attrs : List (Str × Value))
+    (text : Str) (h : InputOk ty name imports attrs)
+    (he : emitConfigItem ty name ioe imports attrs = some text) :
+    parseItem text = some { ty := ty, name := name, ioe := ioe, imports := imports,
+                            assigns := pathsOf (round6Ms attrs) } :=
+  parseItem_emit ty name ioe imports attrs text h.ty h.name h.imports
+    (fun kv hkv => by
+      obtain ⟨k, v⟩ := kv
+      have := h.attrs (k, v) hkv
+      exact AttrOk.of k v this.1 this.2.1 this.2.2.1 this.2.2.2) he
+
+/-- `no_injection`: the STRUCTURE of the generated configuration depends on the inputs only through
+    the list of keys: same type, same name, same templates, one assignment per supplied key with
+    exactly that key's path, in order — whatever the name, the keys and the values contain. -/
+theorem no_injection (ty name : Str) (ioe : Bool) (imports : List Str) (attrs : List (Str × Value))
+    (text : Str) (h : InputOk ty name imports attrs)
+    (he : emitConfigItem ty name ioe imports attrs = some text) :
+    ∃ it, parseItem text = some it ∧ it.ty = ty ∧ it.name = name ∧ it.ioe = ioe ∧ it.imports = imports ∧
+      it.assigns.map (·.1) = attrs.map (fun kv => splitDots kv.1) := by
+  refine ⟨_, emit_parse_roundtrip ty name ioe imports attrs text h he, rfl, rfl, rfl, rfl, ?_⟩
+  clear h he
+  induction attrs with
+  | nil => rfl
+  | cons kv r ih => obtain ⟨k, v⟩ := kv; simpa [pathsOf, round6Ms] using ih
+
+/-- The same for `CreateObjectConfig` (attribute whitelist, name parts, `version`): if it returns a
+    text, that text is the one object statement over `allAttrs`. -/
+theorem create_config_roundtrip (ti : TypeInfo) (fullName : Str) (ioe : Bool) (templates : List Str)
+    (attrs : List (Str × Value)) (parts : Option (List (Str × Value))) (now : Dec) (text : Str)
+    (h : InputOk ti.name (shortName fullName parts)
+          templates (allAttrs attrs parts now))
+    (he : createObjectConfig ti fullName ioe templates attrs parts now = some text) :
+    parseItem text = some { ty := ti.name,
+                            name := shortName fullName parts,
+                            ioe := ioe, imports := templates,
+                            assigns := pathsOf (round6Ms (allAttrs attrs parts now)) } := by
+  unfold createObjectConfig at he
+  split at he
+  · exact emit_parse_roundtrip _ _ ioe templates _ text h he
+  · cases he
+
+/-- `faithful_attributes_partial`: the values the text assigns denote exactly the supplied ones when
+    every number has at most six fractional decimal digits (full statement false: F-C17a,
+    `number_precision_counterexample`). -/
+theorem faithful_attributes_partial (attrs : List (Str × Value)) (h : MsExact attrs) :
+    MsEq (round6Ms attrs) attrs :=
+  round6Ms_faithful attrs h
+
+example : InputOk ['H','o','s','t'] ['h','"','\n','}'] [['t','"']]
+    [(['v','a','r','s','.','x'], .dict [(['a','\n','b'], .str ['*','/'])])] :=
+  ⟨by decide, by decide, by decide, by
+    intro kv hkv
+    simp at hkv; subst hkv
+    refine ⟨by decide, by decide, by decide, ?_⟩
+    simp [VSafe, MsSafe, KeyOk]
+    decide⟩
+
 set_option maxRecDepth 100000 in
-/-- A concrete hostile-but-harmless input: quotes, backslashes, newlines, comment markers, `}}}`,
-    keyword-like and dotted keys, nesting — the text parses back to exactly one object statement with
-    exactly the supplied paths (numbers rounded to six digits). -/
+/-- A concrete hostile-but-harmless input, evaluated by the kernel (regression witness; the general
+    statement is `emit_parse_roundtrip`). -/
 theorem emit_parse_roundtrip_witness :
     ((emitConfigItem ['H','o','s','t'] ['h','"','\n','}','1'] true [['t','p','l']]
         [(['v','a','r','s'], .dict [(['a',' ','b'], .num ⟨false, 15, 1⟩), (['i','f'], .arr [.empty, .bool true, .dict []]),
@@ -71,32 +144,42 @@ theorem emit_parse_roundtrip_witness :
             ((['v','a','r','s'], [['x'], ['y']]), .num ⟨true, 5000000, 6⟩)] }) = some true := by decide
 
 set_option maxRecDepth 100000 in
-/-- F-C17c (`no_injection` is FALSE for the unchanged writer): a nested dictionary key with an embedded
-    line break one of whose lines is an identifier is written RAW (`bareMatch`: Boost's `^…$` are
-    multi-line) — the key `"x = 1\nb"` becomes the two statements `x = 1` and `b = …`. -/
-theorem key_injection_counterexample :
-    emitKey ['x',' ','=',' ','1','\n','b'] = ['x',' ','=',' ','1','\n','b'] ∧
+/-- Regression for F-C17c (fixed by 917b518): the multi-line key `"x = 1\nb"` is written as a quoted
+    string and comes back as ONE key. -/
+example :
+    emitKey ['x',' ','=',' ','1','\n','b'] = ['"','x',' ','=',' ','1','\\','n','b','"'] ∧
     ((emitConfigItem ['H'] ['h'] false []
         [(['v','a','r','s'], .dict [(['x',' ','=',' ','1','\n','b'], .bool true)])]).bind parseItem).map
       (fun it => assignsBeq it.assigns
-        [((['v','a','r','s'], []), .dict [(['x'], .num ⟨false, 1, 0⟩), (['b'], .bool true)])]) = some true := by decide
+        [((['v','a','r','s'], []), .dict [(['x',' ','=',' ','1','\n','b'], .bool true)])]) = some true := by decide
 
 set_option maxRecDepth 100000 in
-/-- Template names are written raw between quotes (configwriter.cpp:68): a quote in the name ends the
-    literal; the text is no longer the one object statement. -/
-theorem template_injection_counterexample :
-    ((emitConfigItem ['H'] ['h'] false [['t','"','\n','g','.','x',' ','=',' ','1','\n','/','/']] []).bind parseItem).isNone
-      = true := by decide
+/-- Regression for F-C17d (fixed by d511a4f): a template name with a quote and line breaks is escaped
+    and comes back as that one template name. -/
+example :
+    ((emitConfigItem ['H'] ['h'] false [['t','"','\n','g','.','x',' ','=',' ','1','\n','/','/']] []).bind parseItem).map
+      (fun it => it.imports == [['t','"','\n','g','.','x',' ','=',' ','1','\n','/','/']] && it.assigns.isEmpty)
+      = some true := by decide
 
-/-- keys without a line separator are written bare only if they are identifiers -/
+set_option maxRecDepth 100000 in
+/-- The two lexer keywords missing from the writer's list: a nested key `in` (or `debugger`) is written
+    bare, the lexer reads a keyword, the text is rejected — creation fails, nothing is injected. -/
+theorem lexer_keyword_key_rejected :
+    ((emitConfigItem ['H'] ['h'] false [] [(['v','a','r','s'], .dict [(['i','n'], .bool true)])]).bind parseItem).isNone = true ∧
+    ((emitConfigItem ['H'] ['h'] false [] [(['v','a','r','s'], .dict [(kwDebugger, .bool true)])]).bind parseItem).isNone = true := by
+  decide
+
+/-- keys are written bare only if the whole key is an identifier -/
 theorem bare_key_is_identifier_witness :
     emitKey ['a','-','b'] = ['"','a','-','b','"'] ∧ emitKey ['i','f'] = ['@','i','f'] ∧
-    emitKey ['a','_','1'] = ['a','_','1'] ∧ emitKey [] = ['"','"'] := by decide
+    emitKey ['a','_','1'] = ['a','_','1'] ∧ emitKey [] = ['"','"'] ∧
+    emitKey ['a','\n','b'] = ['"','a','\\','n','b','"'] := by decide
 
 /-! ## Create / delete state machine -/
 
-/-- All-or-nothing for every fault except an exception out of `ActivateItems` (see
-    `activate_exception_counterexample`): either the call reports success without a fault and the state
+/-- All-or-nothing for every fault — including a committed object whose name differs from the requested
+    one (F-C17e, fixed by 86ebd6a: fault `nameMismatch`) — except an exception out of `ActivateItems` (see
+    `activate_exception_counterexample`; that hypothesis is why the theorem keeps its `_partial` name): either the call reports success without a fault and the state
     gained exactly the active `_api` object, its item and its file; or the state is exactly as before
     (no object, item or file left behind) and `true` is returned only for `ignore_on_error`.
     Full statement (no `hf`) fails in the model: the catch block at configobjectutility.cpp:287-295
@@ -120,6 +203,10 @@ theorem create_all_or_nothing_partial (st : St) (k : Key) (path : Str) (parents 
     have h3 : rmFile path (path :: st.files) = st.files := by
       simp [rmFile]; simpa [rmFile] using h1
     cases fault <;> simp [hk', h1, h2, h3] at hf ⊢
+
+/-- Regression for F-C17e (fixed by 86ebd6a): a name mismatch after commit fails and leaves nothing. -/
+example : createObject ⟨[], [], [], []⟩ ⟨['N'], ['s','h','!','!','b']⟩ ['f'] [] .nameMismatch = (⟨[], [], [], []⟩, .fail) := by
+  decide
 
 example : (createObject ⟨[], [], [], []⟩ ⟨['H'], ['h']⟩ ['f'] [] .none).2 = .ok ∧
     (createObject ⟨[], [], [], []⟩ ⟨['H'], ['h']⟩ ['f'] [] .commitFails) = (⟨[], [], [], []⟩, .fail) := by decide
